@@ -76,6 +76,8 @@ def gen_cases(run, tier):
     for i in range(n_pat):
         nf = rng.choice([1, 1, 1, 1, 2, 2, 3, 4])
         fl = [(rng.choice('+-'), FL.gen_pattern(rng)) for _ in range(nf)]
+        if nf >= 2 and rng.random() < 0.2:
+            fl.append(fl[0])
         alpha = FL.alphabet_for([p for _, p in fl], rng, 4 if nf == 1 else 3)
         paths = FL.strings_over(alpha, 5 if (tier == 'thorough' and i % 4 == 0) else 4) + rng.sample(FL.PATHY, 6)
         cases.append(Case(fl, paths, 'subset-%d' % nf))
@@ -177,6 +179,7 @@ E2E_FILTERS = [
     ['-build|dist'], ['-build'], ['+.*\\.txt', '-a/.*'], ['+a(/.*)?', '-.*\\.tmp'], ['-(?i).*\\.tmp'],
     ['-a', '+a/keep\\.txt'], ['+(a|b)(/.*)?', '-(a|b)/build'], ['-.*/(build|target)', '-build|target'],
     ['-[^/]*\\.(tmp|TMP)', '-.*/[^/]*\\.(tmp|TMP)'], ['+.*', '-dist/.*'], ['-dist', '+dist'], ['+b|rebuild|rebuild/.*|b/.*'],
+    ['-^build|dist$'], ['-^a|b$', '+^x$'], ['-.*\\.tmp', '+a/.*', '-.*\\.tmp'], ['+a(/.*)?', '-a/x\\.tmp', '+a(/.*)?'], ['-^keep\\.txt$'],
 ]
 
 
@@ -265,6 +268,8 @@ def e2e_cases(run, binary, jbin, tmp, tier):
             pyf = [(f[0], f[1:]) for f in filters]
         else:
             fl = [(rng.choice('+-'), FL.gen_pathy_pattern(rng)) for _ in range(rng.choice([1, 2, 3]))]
+            if len(fl) >= 2 and rng.random() < 0.35:
+                fl.append(fl[0])                     # the same filter again later in the list: last match must still win
             filters = [sg + p.rs for sg, p in fl]
             pyf = [(sg, p.py) for sg, p in fl]
         place = placements[i % len(placements)] if i >= 4 else 'LL'
